@@ -128,4 +128,51 @@ def completePython (components : List String) (st : Settings) (lower : List Char
     List Comp :=
   sortCompletions components lower like (filterNames st lower cands like fuzzy imported)
 
+/-! ### case folding as the source spells it
+
+`filter_names` folds the fragment and every candidate with a `str` method when
+`settings.case_insensitive_completion`; which method, and whether the fragment is measured
+before or after folding, is read from the source by the translator (`Gen.C04.fold*`). -/
+
+/-- CPython's case mappings; parameters of the model -/
+structure Folds where
+  lower : List Char → List Char
+  casefold : List Char → List Char
+  upper : List Char → List Char
+
+/-- `getattr(s, method)()` for the method names the translator knows -/
+def Folds.by (F : Folds) : String → List Char → List Char
+  | "lower" => F.lower
+  | "casefold" => F.casefold
+  | "upper" => F.upper
+  | _ => id
+
+/-- shape of the folding statements of `filter_names` -/
+structure FoldShape where
+  likeMethod : String      -- `like_name = like_name.<m>()`
+  nameMethod : String      -- `string = string.<m>()`
+  lengthFirst : Bool       -- `like_name_length = len(like_name)` stands before the fold
+deriving DecidableEq, Repr
+
+/-- `filter_names(...)` with the folding statements as found in the source -/
+def filterNamesSrc (sh : FoldShape) (st : Settings) (F : Folds) (cands : List Cand)
+    (like : List Char) (fuzzy : Bool) (imported : List (List Char)) : List Comp :=
+  let like' := foldCase st (F.by sh.likeMethod) like
+  filterLoop st (F.by sh.nameMethod) like'
+    (if sh.lengthFirst then like.length else like'.length) fuzzy imported cands []
+
+/-- the non-string branch of `Completion.complete` with the source's folding statements; the
+sort key always uses `str.lower` -/
+def completePythonSrc (components : List String) (sh : FoldShape) (st : Settings) (F : Folds)
+    (cands : List Cand) (like : List Char) (fuzzy : Bool) (imported : List (List Char)) :
+    List Comp :=
+  sortCompletions components F.lower like (filterNamesSrc sh st F cands like fuzzy imported)
+
+/-- a case mapping that works code point by code point; one code point may map to several
+(`ß` ↦ `ss` under `casefold`, `İ` ↦ `i̇` under `lower`) -/
+def expand (f : Char → List Char) (s : List Char) : List Char := s.flatMap f
+
+/-- every code point of `s` maps to exactly one code point -/
+def unitOn (f : Char → List Char) (s : List Char) : Bool := s.all fun ch => (f ch).length == 1
+
 end JediModel.Completion
